@@ -38,6 +38,7 @@ type forest interface {
 	get(loc, id string) (string, error)
 	search(loc string, pattern map[string]interface{}, inherited bool) ([]string, error)
 	listRules(loc string, inherited bool) ([]string, error)
+	processReusing(ctx *core.Context, other, loc string, ev map[string]interface{}) ([]string, error)
 	dispatch(loc string, event map[string]interface{}) ([]string, error)
 	// process runs the whole event (conditions and actions) and returns the action values
 	process(loc string, event map[string]interface{}) ([]string, error)
@@ -156,6 +157,20 @@ func (f *coreForest) process(loc string, ev map[string]interface{}) ([]string, e
 	return vs, nil
 }
 
+func (f *coreForest) processReusing(ctx *core.Context, other, loc string, ev map[string]interface{}) ([]string, error) {
+	f.locs[other].GetFact(ctx, "no-such-fact")
+	fr, cond := f.locs[loc].ProcessEvent(ctx, core.Map(ref.CloneMap(ev)))
+	if cond != nil {
+		return nil, fmt.Errorf("%s", cond.Msg)
+	}
+	vs := []string{}
+	for _, v := range fr.Values {
+		vs = append(vs, fmt.Sprint(v))
+	}
+	sort.Strings(vs)
+	return vs, nil
+}
+
 // ---- sys.System ----
 type sysForest struct{ s *sys.System }
 
@@ -235,6 +250,22 @@ func (f *sysForest) dispatch(loc string, ev map[string]interface{}) ([]string, e
 
 func (f *sysForest) process(loc string, ev map[string]interface{}) ([]string, error) {
 	return f.dispatch(loc, ev)
+}
+
+// processReusing: a client that keeps one Context for all its requests first reads at
+// `other`, then sends the event to loc with the same Context.
+func (f *sysForest) processReusing(ctx *core.Context, other, loc string, ev map[string]interface{}) ([]string, error) {
+	f.s.GetFact(ctx, other, "no-such-fact")
+	fr, err := f.s.ProcessEvent(ctx, loc, js(ev))
+	if err != nil {
+		return nil, err
+	}
+	vs := []string{}
+	for _, v := range fr.Values {
+		vs = append(vs, fmt.Sprint(v))
+	}
+	sort.Strings(vs)
+	return vs, nil
 }
 
 // ---- model ----
@@ -369,6 +400,7 @@ func campaign(r *rep.Report, e rep.Env) {
 			m.locs[n] = ref.NewLoc(n)
 		}
 		var run []op
+		var sharedCtx *core.Context
 		steps := 10 + g.Intn(15)
 		for s := 0; s < steps; s++ {
 			li := g.Intn(nloc)
@@ -398,6 +430,10 @@ func campaign(r *rep.Report, e rep.Env) {
 			case k < 13:
 				o.Op = "mkEvent"
 				o.Id = fmt.Sprint(s)
+				if g.Intn(3) == 0 {
+					// an event that carries its rule, sent with a Context the client used for another location before
+					o.Op = "embedEvent"
+				}
 			default:
 				// parents only point to higher-numbered locations: chains, fans, diamonds, never a loop;
 				// the parent set is changed through SetParents, through the `!parents` property fact,
@@ -421,6 +457,29 @@ func campaign(r *rep.Report, e rep.Env) {
 			}
 			r.Journal(rep.J{"via": via, "state": kind, "hist": hi, "op": o})
 			run = append(run, o)
+			if o.Op == "embedEvent" {
+				other := names[(li+1)%nloc]
+				ev := map[string]interface{}{"emb": o.Id, "evaluate!": map[string]interface{}{
+					"when":   map[string]interface{}{"pattern": map[string]interface{}{"emb": "?n"}},
+					"action": map[string]interface{}{"code": "Env.AddFact('emb-' + n, {a:'made', k:'w', at:location}); location"}}}
+				if _, loop := m.ancestors(l); loop {
+					continue
+				}
+				if sharedCtx == nil {
+					sharedCtx = drv.Ctx()
+				}
+				got, err := f.processReusing(sharedCtx, other, l, ev)
+				r.Count("embedded_rule_events_with_reused_context", 1)
+				m.locs[l].Put("emb-"+o.Id, map[string]interface{}{"a": "made", "k": "w", "at": l})
+				if err != nil {
+					r.Violate("", "event with an embedded rule failed: "+err.Error(), rep.J{"via": via, "state": kind, "history": run})
+				} else if !ref.SameSet(got, []string{l}) {
+					r.Violate("", "the action of an embedded rule did not run in the event's own location (the client's Context was last used for another location)", rep.J{"via": via, "state": kind, "history": run, "got": got, "want": []string{l}, "context_last_used_for": other})
+				}
+				r.Case(true, via+kind+ref.Canon(run))
+				check(r, f, m, names, run, via, kind)
+				continue
+			}
 			if o.Op == "mkEvent" {
 				ev := map[string]interface{}{"mk": o.Id}
 				anc, loop := m.ancestors(l)
